@@ -312,4 +312,45 @@ example : parsedX.kids 0 = [1, 5] ∧ parsedX.kids 1 = [2, 3] ∧ parsedX.kids 3
     parsedX.ne 4 = some 5 ∧ parsedX.pe 1 = none ∧ parsedX.ns 1 = some 5 ∧ parsedX.parent 5 = some 0 ∧
     parsedX.next = 6 := by decide
 
+
+/-! ## 10: rejected parsing strategies leave nothing behind; the empty-element rule -/
+
+/-- whatever state earlier iterations left in the object, the document is the one built from the events of the first strategy that is
+    not rejected: a strategy abandoned with ParserRejectedMarkup after sending events contributes nothing -/
+theorem rejected_strategies_leave_no_trace (cfg : Cfg) (st : St) (rej : List Attempt) (hr : ∀ a ∈ rej, a.rejected = true)
+    (evs : List Ev) (later : List Attempt) :
+    parseLoop cfg st (rej ++ ⟨evs, false⟩ :: later) = some (build cfg evs) := by
+  induction rej generalizing st with
+  | nil => simp [parseLoop, build]
+  | cons a rest ih =>
+    have ha : a.rejected = true := hr a (by simp)
+    simp only [List.cons_append, parseLoop, ha, if_true]
+    exact ih _ (fun b hb => hr b (by simp [hb]))
+
+/-- … and it does not depend on the state the object was in before (a BeautifulSoup object is reset per feed) -/
+theorem parse_independent_of_previous_state (cfg : Cfg) (st st' : St) (atts : List Attempt) :
+    parseLoop cfg st atts = parseLoop cfg st' atts := by
+  cases atts with
+  | nil => rfl
+  | cons a rest => simp [parseLoop]
+
+/-- all strategies rejected: no tree (the caller sees ParserRejectedMarkup) -/
+theorem all_rejected_no_document (cfg : Cfg) (st : St) (rej : List Attempt) (hr : ∀ a ∈ rej, a.rejected = true) :
+    parseLoop cfg st rej = none := by
+  induction rej generalizing st with
+  | nil => rfl
+  | cons a rest ih =>
+    simp only [parseLoop, hr a (by simp), if_true]
+    exact ih _ (fun b hb => hr b (by simp [hb]))
+
+/-- an explicitly EMPTY empty-element rule makes no element void; no rule at all makes every element potentially void -/
+theorem empty_rule_no_void (n : Name) : canBeEmptyElement (some []) n = false := by simp [canBeEmptyElement]
+theorem no_rule_every_void (n : Name) : canBeEmptyElement none n = true := rfl
+theorem rule_is_membership (l : List Name) (n : Name) : canBeEmptyElement (some l) n = true ↔ n ∈ l := by
+  simp [canBeEmptyElement]
+
+example : parseLoop sampleCfg (St.init sampleCfg) [⟨[.start [97] none, .data [120]], true⟩, ⟨[.start [98] none], false⟩]
+    = some (build sampleCfg [.start [98] none]) :=
+  rejected_strategies_leave_no_trace sampleCfg _ [⟨[.start [97] none, .data [120]], true⟩] (by simp) _ []
+
 end BS.Props.C03
